@@ -144,6 +144,7 @@ type coseBuild struct {
 	PayloadNil  bool
 	SignKey     *Key
 	SigOverride []byte
+	SignAs      string // sign with the hash of this algorithm name instead of the key's
 	SigMutate   func([]byte) []byte
 	NoSign      bool
 	Untagged    bool
@@ -152,11 +153,17 @@ type coseBuild struct {
 	PayloadWide int
 }
 
-func coseSign(key crypto.Signer, tbs []byte) []byte {
+func coseSign(key crypto.Signer, tbs []byte) []byte { return coseSignAs(key, tbs, "") }
+
+// coseSignAs signs with the hash of algorithm name `as` ("" = the algorithm the key dictates)
+func coseSignAs(key crypto.Signer, tbs []byte, as string) []byte {
 	switch k := key.(type) {
 	case *ecdsa.PrivateKey:
 		bits := k.Curve.Params().BitSize
 		alg := map[int]string{256: "ES256", 384: "ES384", 521: "ES512", 224: "ES256"}[bits]
+		if strings.HasPrefix(as, "ES") {
+			alg = as
+		}
 		_, _, sum := hashFor(alg)
 		r, s, err := ecdsa.Sign(rand.Reader, k, sum(tbs))
 		if err != nil {
@@ -170,6 +177,9 @@ func coseSign(key crypto.Signer, tbs []byte) []byte {
 		return out
 	case *rsa.PrivateKey:
 		alg := map[int]string{2048: "PS256", 3072: "PS384", 4096: "PS512", 1024: "PS256"}[k.N.BitLen()]
+		if strings.HasPrefix(as, "PS") {
+			alg = as
+		}
 		h, _, sum := hashFor(alg)
 		s, err := rsa.SignPSS(rand.Reader, k, h, sum(tbs), &rsa.PSSOptions{SaltLength: rsa.PSSSaltLengthEqualsHash})
 		if err != nil {
@@ -236,7 +246,7 @@ func (b *coseBuild) build() *builtCOSE {
 	}
 	var sig []byte
 	if !b.NoSign && b.SignKey != nil {
-		sig = coseSign(b.SignKey.Priv, sigStructure(out.ProtContent, b.Payload))
+		sig = coseSignAs(b.SignKey.Priv, sigStructure(out.ProtContent, b.Payload), b.SignAs)
 	}
 	if b.SigMutate != nil {
 		sig = b.SigMutate(sig)
